@@ -206,6 +206,24 @@ def run_config(cfg):
                         model = solver.nice_model(solver._last_query, [int(a) for i in ids for a in i.reshape(-1)]) or model
                         xv = [core.model_array(model, i) for i in ids]
                         rep = _replay_additivity(cfg, xv, oi, e, float(tau))
+                        if not rep['reproduced']:
+                            # the two linear maps differ; additivity is visible from a point of the *thin* region (x there, x + r and -r
+                            # in the other one): look for a witness on the first path as well
+                            s2 = smt.Solver(stats=st)
+                            for i in ids:
+                                for a in i.reshape(-1):
+                                    s2.var(int(a))
+                            try:
+                                s2.add_path(base_pc)
+                                v2, m2 = s2.decide_amplified(d, tau, label='path0 out%d[%d]' % (oi, e))
+                            except Exception:
+                                v2, m2 = 'unknown', None
+                            if v2 == 'sat':
+                                m2 = s2.nice_model(s2._last_query, [int(a) for i in ids for a in i.reshape(-1)]) or m2
+                                xv2 = [core.model_array(m2, i) for i in ids]
+                                rep2 = _replay_additivity(cfg, xv2, oi, e, float(tau))
+                                if rep2['reproduced']:
+                                    xv, rep = xv2, rep2
                         res.status = 'violation'
                         res.violations.append(dict(what='not linear: on the data-dependent path %s output %d[%d] deviates from the linear map of the generic path; additivity fails by %.3g'
                                                    % ([bool(d_) for _, d_ in pc], oi, e, rep['diff']), facts=dict(facts, path=[bool(d_) for _, d_ in pc]),
